@@ -26,23 +26,25 @@ type wc struct {
 
 // Profile biases the generator for one property.
 type Profile struct {
-	Top           []wc // weights of top-level block kinds
-	Nested        []wc // weights of block kinds inside containers, list items, quotes, cells
-	Core          []wc // if set: weights of block kinds inside the article core (see page)
-	MinTop        int
-	MaxTop        int
-	MaxDepth      int
-	Title         bool                           // emit a <title> (tokens are class A: they live in head)
-	Attr          func(g *G, tag string) string  // extra attributes for any element ("" if none)
-	URL           func(g *G, kind string) string // URL reference for anchors and media
-	LenMix        [3]int                         // weights of short / medium / long paragraphs
-	Inline        []wc                           // weights of inline run kinds
-	HeadJunk      bool                           // script/style in head
-	Carriers      int                            // percentage chance of class A / class B carriers inside cells, captions, tweets
-	TablesInLists int                            // weight of data tables as the (only) content of list items and quotes
-	EscapedText   bool                           // pre blocks may hold escaped markup as visible text
-	EmptyCells    bool                           // data tables may hold empty cells and spacer rows
-	CommaURLs     bool                           // image URLs may hold commas (w_400,h_300 style path segments)
+	Top                []wc // weights of top-level block kinds
+	Nested             []wc // weights of block kinds inside containers, list items, quotes, cells
+	Core               []wc // if set: weights of block kinds inside the article core (see page)
+	MinTop             int
+	MaxTop             int
+	MaxDepth           int
+	Title              bool                           // emit a <title> (tokens are class A: they live in head)
+	Attr               func(g *G, tag string) string  // extra attributes for any element ("" if none)
+	URL                func(g *G, kind string) string // URL reference for anchors and media
+	LenMix             [3]int                         // weights of short / medium / long paragraphs
+	Inline             []wc                           // weights of inline run kinds
+	HeadJunk           bool                           // script/style in head
+	Carriers           int                            // percentage chance of class A / class B carriers inside cells, captions, tweets
+	TablesInLists      int                            // weight of data tables as the (only) content of list items and quotes
+	EscapedText        bool                           // pre blocks may hold escaped markup as visible text
+	EmptyCells         bool                           // data tables may hold empty cells and spacer rows
+	ForeignRawText     bool                           // raw-text elements with markup-like text inside svg/math (cells, captions, tweets, inline)
+	LessThanInCaptions bool                           // figure captions / paragraphs inside figures may hold a literal "<"
+	CommaURLs          bool                           // image URLs may hold commas (w_400,h_300 style path segments)
 }
 
 func newG(t *rapid.T, p *Profile) *G {
@@ -239,6 +241,8 @@ func (g *G) inline(k int) string {
 			}
 			g.pop()
 			n = 0
+		case "mxss":
+			parts = append(parts, g.foreignRawText()+" "+g.words(n))
 		case "escaped":
 			// visible text that looks like markup (escaped in the source)
 			parts = append(parts, g.pick("escform", "&lt;script&gt;"+g.words(n)+"&lt;/script&gt;", "&lt;b onmouseover=alert(1) id=x class=y style=z&gt;"+g.words(n)+"&lt;/b&gt;",
@@ -419,6 +423,9 @@ func (g *G) dataTable() string {
 		b.WriteString("</tr>\n")
 	}
 	b.WriteString("</table>\n")
+	if g.P.ForeignRawText && g.intn(0, 5, "xmpafter") == 0 {
+		b.WriteString("<xmp>some &lt;b&gt; <img src=x onerror=alert(1) id=pwn> text</xmp>\n")
+	}
 	return b.String()
 }
 
@@ -444,7 +451,31 @@ func (g *G) carrier() string {
 	}
 }
 
+// foreignRawText emits inert text that looks like markup inside raw-text elements in foreign content
+// (svg / math); serialising and parsing again must not bring it to life.
+func (g *G) foreignRawText() string {
+	payload := g.pick("mxpay", `&lt;img src=x onerror=alert(1) id=pwn class=c style="x:y"&gt;`, `&lt;script&gt;alert(1)&lt;/script&gt;`,
+		`&lt;b onmouseover=a() id=i&gt;x&lt;/b&gt;`, `&lt;style&gt;*{}&lt;/style&gt;&lt;p class=k&gt;`)
+	switch g.pick("mxform", "svg-xmp", "svg-noembed", "math-xmp", "annotation-xml", "svg-noscript", "svg-plaintext") {
+	case "svg-xmp":
+		return "<svg><xmp>" + payload + "</xmp></svg>"
+	case "svg-noembed":
+		return "<svg><noembed>" + payload + "</noembed></svg>"
+	case "math-xmp":
+		return `<math style="display:inline"><xmp style="display:inline">` + payload + "</xmp></math>"
+	case "annotation-xml":
+		return `<math><annotation-xml encoding="text/html"><xmp>` + strings.NewReplacer("&lt;", "<", "&gt;", ">").Replace(payload) + "</xmp></annotation-xml></math>"
+	case "svg-noscript":
+		return "<svg><noscript>" + payload + "</noscript></svg>"
+	default:
+		return "<svg><plaintext>x</plaintext></svg>"
+	}
+}
+
 func (g *G) maybeCarrier(label string) string {
+	if g.P.ForeignRawText && g.chance(12, label+"mx") {
+		return " " + g.foreignRawText() + " "
+	}
 	if g.P.Carriers > 0 && g.chance(g.P.Carriers, label) {
 		return " " + g.carrier() + " "
 	}
@@ -465,6 +496,10 @@ func (g *G) cell() string {
 	case "inl":
 		return g.inline(g.intn(1, 10, "ciw"))
 	case "img":
+		if g.intn(0, 3, "cellmap") == 0 {
+			m := g.tokp("map")
+			return `<img src="` + g.url("img") + `" usemap="#` + m + `"><map name="` + m + `"><area shape="rect" coords="0,0,5,5" href="` + g.url("a") + `" alt="` + g.tokp("alt") + `"></map>` + g.words(1)
+		}
 		return `<img src="` + g.url("img") + `"` + g.at("img") + ">" + g.words(1)
 	case "list":
 		return "<ul><li>" + g.words(g.intn(1, 5, "clw")) + "</li><li>" + g.words(g.intn(1, 5, "clw2")) + "</li></ul>"
@@ -479,7 +514,12 @@ func (g *G) layoutTable() string {
 	cols := g.intn(1, 3, "ltc")
 	var b strings.Builder
 	b.WriteString("<table" + g.at("table") + "><tr>")
+	bare := g.intn(0, 2, "ltbare") == 0 // cells hold bare inline text, and nothing separates the cells in the markup
 	for c := 0; c < cols; c++ {
+		if bare {
+			b.WriteString("<td" + g.at("td") + ">" + g.inline(g.plen()) + "</td>")
+			continue
+		}
 		b.WriteString("<td" + g.at("td") + ">" + g.blocks(g.intn(1, 3, "lt#")) + "</td>")
 	}
 	b.WriteString("</tr></table>\n")
@@ -487,10 +527,18 @@ func (g *G) layoutTable() string {
 }
 
 func (g *G) srcset(kind string) string {
-	if g.chance(50, "ssx") {
+	switch g.intn(0, 9, "ssform") {
+	case 0, 1, 2, 3:
 		return g.url(kind) + " 1x, " + g.url(kind) + " 2x"
+	case 4, 5, 6:
+		return g.url(kind) + " 480w, " + g.url(kind) + " 800w"
+	case 7: // descriptors the HTML specification allows but a simple pattern does not expect
+		return g.url(kind) + " 1e1x, " + g.url(kind) + " 1.5x"
+	case 8:
+		return g.url(kind) + " 100w 50h, " + g.url(kind) + " 200w"
+	default: // no descriptor, odd spacing, trailing comma
+		return g.url(kind) + " ,  " + g.url(kind) + " 2x,"
 	}
-	return g.url(kind) + " 480w, " + g.url(kind) + " 800w"
 }
 
 func (g *G) img() string {
@@ -513,6 +561,9 @@ func (g *G) img() string {
 func (g *G) picture() string {
 	var b strings.Builder
 	b.WriteString("<picture" + g.at("picture") + ">")
+	if g.P.Carriers > 0 && g.chance(25, "piccomment") {
+		b.WriteString(strings.TrimSpace(g.comment()))
+	}
 	n := g.intn(1, 2, "pics")
 	for i := 0; i < n; i++ {
 		b.WriteString(`<source srcset="` + g.srcset("srcset") + `" media="(min-width: 600px)"` + g.at("source") + ">")
@@ -530,6 +581,15 @@ func (g *G) lazySpan() string {
 
 func (g *G) figure() string {
 	var b strings.Builder
+	if g.P.LessThanInCaptions && g.intn(0, 3, "figlt") == 0 {
+		// caption text with a literal "<" (escaped in the source), in a figcaption or in a plain paragraph
+		k := g.intn(2, 8, "figltw")
+		txt := g.words(k) + " &lt;" + g.words(g.intn(1, 6, "figltw2")) + " " + g.words(2)
+		if g.intn(0, 1, "figltp") == 0 {
+			return "<figure>" + strings.TrimSpace(g.img()) + "<p>" + txt + "</p></figure>\n"
+		}
+		return "<figure>" + strings.TrimSpace(g.img()) + "<figcaption>" + txt + "</figcaption></figure>\n"
+	}
 	b.WriteString("<figure" + g.at("figure") + ">")
 	switch g.weighted("figk", []wc{{"img", 50}, {"picture", 20}, {"noscript", 20}, {"lazy", 10}}) {
 	case "img":
@@ -541,6 +601,14 @@ func (g *G) figure() string {
 		b.WriteString(`<noscript><img src="` + g.url("img") + `"></noscript>`)
 	case "lazy":
 		b.WriteString(`<img data-src="` + g.url("img") + `" data-srcset="` + g.srcset("srcset") + `"` + g.at("img") + ">")
+	}
+	if g.P.Carriers > 0 && g.chance(12, "hiddencapwrap") {
+		// a caption that sits under a hidden ancestor inside the figure: class A
+		g.push("ha")
+		b.WriteString(g.hiddenOpen("div") + "<figcaption>" + g.words(g.intn(1, 6, "hcw")) + ` <a href="` + g.url("a") + `">` + g.words(1) + "</a></figcaption></div>")
+		g.pop()
+		b.WriteString("</figure>\n")
+		return b.String()
 	}
 	switch g.weighted("capk", []wc{{"none", 25}, {"text", 40}, {"link", 35}}) {
 	case "text":
@@ -568,7 +636,11 @@ func (g *G) video() string {
 	b.WriteString(` controls` + g.at("video") + ">")
 	n := g.intn(0, 2, "vs#")
 	for i := 0; i < n; i++ {
-		b.WriteString(`<source src="` + g.url("source-v") + `" type="video/mp4"` + g.at("source") + ">")
+		b.WriteString(`<source src="` + g.url("source-v") + `" type="video/mp4"`)
+		if g.intn(0, 4, "vsrcset") == 0 {
+			b.WriteString(` srcset="` + g.srcset("srcset") + `"`)
+		}
+		b.WriteString(g.at("source") + ">")
 	}
 	if g.chance(40, "vtrack") {
 		b.WriteString(`<track src="` + g.url("track") + `" kind="subtitles"` + g.at("track") + ">")
@@ -612,7 +684,10 @@ func (g *G) otherFrame() string {
 func (g *G) hiddenOpen(tag string) string {
 	mech := g.pick("hid", ` hidden`, ` hidden=""`, ` hidden="hidden"`, ` style="display:none"`, ` style="display: none"`,
 		` style="DISPLAY:NONE;"`, ` style="color:red;display:none"`, ` style="display:none;color:red"`,
-		` style="visibility:hidden"`, ` style="visibility: collapse"`, ` style="margin:0;visibility:hidden;"`, ` aria-hidden="true"`)
+		` style="visibility:hidden"`, ` style="visibility: collapse"`, ` style="margin:0;visibility:hidden;"`, ` aria-hidden="true"`,
+		// the same declarations in other spellings CSS allows
+		` style="display:none !important"`, ` style="display:none!important;"`, ` style="display : none"`, ` style="display :none;"`,
+		` style="visibility : hidden"`, ` style="color:red; visibility: hidden"`, ` style="display:inline;display:none"`, ` style="display:block; display: none;"`, ` style="display:none/**/"`, ` style="/* x */display:none"`)
 	return "<" + tag + mech + g.at(tag) + ">"
 }
 
@@ -793,6 +868,10 @@ func (g *G) block(kind string) string {
 			inner = g.linkCluster() + g.para()
 		}
 		return "<div" + marker + ">" + inner + "</div>\n"
+	case "wrappedmedia":
+		m := g.pick("wmk", strings.TrimSpace(g.img()), strings.TrimSpace(g.video()), strings.TrimSpace(g.youtube()), strings.TrimSpace(g.figure()))
+		tag := g.pick("wmtag", "div", "section", "header", "div")
+		return "<" + tag + "><p>" + m + "<br></p></" + tag + ">\n"
 	case "texttable":
 		// bare inline text sharing its container with a data table (and other media) that follows it directly
 		tag := g.pick("tttag", "div", "section", "td-less", "li")
@@ -819,6 +898,14 @@ func (g *G) block(kind string) string {
 			return "<p>" + sep + "</p>\n"
 		}
 		return "<div>" + sep + "</div>\n"
+	case "nbsp":
+		// words separated by no-break and other Unicode spaces
+		var ws []string
+		n := g.intn(5, 40, "nbw")
+		for i := 0; i < n; i++ {
+			ws = append(ws, g.tok())
+		}
+		return "<p>" + strings.Join(ws, g.pick("nbsep", "&nbsp;", "\u00a0", "\u2003", "&nbsp; ", "\u3000")) + "</p>\n"
 	case "hangul":
 		// Hangul-only words next to tokens (the letter word counter counts them, the fast one does not)
 		hw := []string{"한국어", "문장", "텍스트", "단어", "기사", "내용", "페이지", "제목"}
